@@ -649,8 +649,16 @@ class Item:
                 pat = src[toks[idx][2]:toks[k_in][1]].strip()
                 expr = src[toks[k_in][2]:toks[j][1]].strip()
                 it = "verif_it%d" % ordinal
-                self.text = (src[:s] + "let mut %s = verif_into_iter(%s);\n        while let Some(%s) = %s.next() " % (it, expr, pat, it) + src[toks[j][1]:])
-                self.rewrites.append({"rule": "R11", "what": "`for %s in %s` desugared to `let mut %s = verif_into_iter(..); while let Some(%s) = %s.next()`" % (pat, expr, it, pat, it)})
+                mrev = re.match(r"^([\w.]+)\.iter\(\)\.rev\(\)$", expr)
+                mref = re.match(r"^(?:([\w.]+)\.iter\(\)|&([\w.]+))$", expr)
+                if mrev:
+                    ctor = "verif_rev_iter(&%s)" % mrev.group(1)
+                elif mref:
+                    ctor = "verif_ref_iter(&%s)" % (mref.group(1) or mref.group(2))
+                else:
+                    ctor = "verif_into_iter(%s)" % expr
+                self.text = (src[:s] + "let mut %s = %s;\n        while let Some(%s) = %s.next() " % (it, ctor, pat, it) + src[toks[j][1]:])
+                self.rewrites.append({"rule": "R11", "what": "`for %s in %s` desugared to `let mut %s = %s; while let Some(%s) = %s.next()`" % (pat, expr, it, ctor.split("(")[0] + "(..)", pat, it)})
                 return it
         raise ExtractionError("%s: loop #%d not found" % (self.name, ordinal))
 
